@@ -83,6 +83,34 @@ class ScriptedServer:
                                 socket.SOL_SOCKET, socket.SO_LINGER, struct.pack("ii", 1, 0)
                             )
                             break
+                        elif k == "frames":
+                            # an interactive framebuffer: every FramebufferUpdateRequest is answered, act[1] seconds later, by a
+                            # full raw 8x8 update whose colour tells which request it answers (reply #k has red = 40*k)
+                            self.replies = 0
+                            pend = b""
+                            c.settimeout(60)
+                            while True:
+                                d = c.recv(65536)
+                                if not d:
+                                    break
+                                buf.append(d)
+                                pend += d
+                                while pend:
+                                    t = pend[0]
+                                    need = {0: 20, 3: 10, 4: 8, 5: 6}.get(t)
+                                    if t == 2:
+                                        need = 4 + 4 * int.from_bytes(pend[2:4], "big") if len(pend) >= 4 else None
+                                    elif t == 6:
+                                        need = 8 + int.from_bytes(pend[4:8], "big") if len(pend) >= 8 else None
+                                    if need is None or len(pend) < need:
+                                        break
+                                    pend = pend[need:]
+                                    if t == 3:
+                                        time.sleep(act[1])
+                                        self.replies += 1
+                                        px = bytes([(40 * self.replies) % 256, 7, 9, 0]) * 64
+                                        c.sendall(b"\0\0\0\x01" + struct.pack("!HHHHi", 0, 0, 8, 8, 0) + px)
+                            break
                         elif k == "silent":
                             c.settimeout(60)
                             while True:
